@@ -58,16 +58,19 @@ class Matcher:
         return self.bits.get((id(sig), content), False)
 
 
-def membrane_history(k):
+def membrane_history(k, ops=None):
     def h(c):
         try:
-            _membrane(c, k)
+            _membrane(c, k, ops)
         finally:
             restore()
     return h
 
 
-def _membrane(c, k):
+ALL_OPS = ["filter_x", "filter_y", "learn", "forget", "import", "relax_threshold", "add_signature", "advance"]
+
+
+def _membrane(c, k, ops=None):
     clock = SymClock(c)
     MB.time = FakeTime(clock)
     mt = Matcher(c)
@@ -95,7 +98,7 @@ def _membrane(c, k):
     donor = Membrane(silent=True)
     trace = []
     for i in range(k):
-        op = c.choice(f"op{i}", ["filter_x", "filter_y", "learn", "forget", "import", "relax_threshold", "add_signature", "advance"])
+        op = c.choice(f"op{i}", ops or ALL_OPS)
         trace.append(op)
         info = {"trace": list(trace), "threshold": m.threshold.name, "rate_limit": rate}
         if op == "advance":
@@ -424,7 +427,9 @@ def regex_selftest():
 
 
 HARNESSES = {
-    "membrane": {"make": membrane_history, "witness_every": 23, "jobs": lambda tier: [{"k": 3}] if tier == "quick" else [{"k": 4}],
+    "membrane": {"make": membrane_history, "witness_every": 23,
+                 "jobs": lambda tier: ([{"k": 3}, {"k": 4, "ops": ["filter_x", "learn", "forget", "relax_threshold"]}] if tier == "quick" else
+                                       [{"k": 4}, {"k": 5, "ops": ["filter_x", "learn", "forget", "relax_threshold"]}]),
                  "clauses": ["C10.a", "C10.b", "C10.c", "C10.d", "C10.e", "C10.f"]},
     "innate": {"make": innate_history, "witness_every": 23, "jobs": lambda tier: [{"k": 2}] if tier == "quick" else [{"k": 3}],
                "clauses": ["C10.a", "C10.a-acute", "C10.b"]},
@@ -443,7 +448,7 @@ META = {
         "technique": "symbolic execution of membrane.py/innate.py decision logic with z3 match bits and clock; symbolic-string execution of the real matchers with a re._parser-driven symbolic regex engine",
     },
     "files": ["operon_ai/organelles/membrane.py", "operon_ai/surveillance/innate.py"],
-    "bounds": {"quick": "membrane histories k=3 (3 built-in representatives + learned/imported/custom signatures, 2 contents, rate_limit none/1/2); innate histories k=2; embedding L<=2 (membrane) / L<=1 (innate) symbolic cells each side; 13 hostile inputs x 5 gate configurations",
+    "bounds": {"quick": "membrane histories k=3 over 8 operations and k=4 over {filter, learn, forget, relax} (3 built-in representatives + learned/imported/custom signatures, 2 contents, rate_limit none/1/2); innate histories k=2; embedding L<=2 (membrane) / L<=1 (innate) symbolic cells each side; 13 hostile inputs x 5 gate configurations",
                "thorough": "membrane k=4, innate k=3, embedding L<=3 / L<=2"},
     "outside": ["Unicode case folding beyond ASCII for symbolic text (non-ASCII custom signatures are covered by a finite table of ASCII-case variants only)", "inputs other than the hostile corpus for the C-level totality clause", "truncated-hash collisions in the replay memory", "sub-millisecond clock effects"],
     "float_argument": "time.time() is an exact rational of integer milliseconds; the 60 s window comparison is exact",
